@@ -166,6 +166,42 @@ Theorem C09_range_total : forall (H : list N -> list N),
 Proof. exact general_total. Qed.
 Print Assumptions C09_range_total.
 
+(* range_complete_honest (two-edge branch).  FULL STATEMENT, NOT PROVED:
+     for a canonical trie t with keys of one length Lb, a start key [first] of that length,
+     [keys]/[values] = exactly the entries of t with first <= key <= last (at least one, last
+     being the greatest, and not the single-element case first = last), and a database holding
+     the root node and the hashed nodes on the paths of first and last:
+        exists b, verify_range_proof H r first keys values (Some db) = Rok b /\
+                  (b = true <-> has_gt t (keybytes_to_hex last)).
+   PROVED (below, _partial): such a response - indeed any well-formed run whose last key is a
+   key of the trie - passes the batch checks, both proofToPath calls and unsetInternal, never
+   panics (C09_range_total) and can only end in acceptance, in "invalid proof" (root mismatch)
+   or in a MissingNodeError during re-insertion; once accepted, the content and "more" are
+   exact (C09_range_sound_general).  MISSING: (a) re-insertion of keys inside the interval
+   never meets a hash node; (b) the rebuilt trie is structurally the original one, so that the
+   roots agree.  Evidence for (a),(b): every honest response of the correspondence sweep
+   (all tries of <= 5 keys over an 8-key universe x every run; random 32-byte-key tries) is
+   accepted by model and implementation. *)
+Theorem C09_range_complete_honest_partial : forall (H : list N -> list N),
+  (forall x, length (H x) = 32%nat) ->
+  forall (db : pdb) (P : list N -> Prop),
+  (forall e b, P e -> db_get db (H e) = Some b -> b = e) ->
+  forall t r, can t -> content_ok t -> hash_root H t = Some r -> (forall e, genuine H t e -> P e) ->
+  forall first last keys values Lb,
+    keys_fixed t Lb -> (0 < Lb)%nat -> N.of_nat Lb < 2 ^ 30 ->
+    length first = Lb -> forallb byteb first = true ->
+    Forall (fun k => length k = Lb /\ forallb byteb k = true) keys -> Forall small values ->
+    length keys = length values -> sorted keys -> Forall (fun v => v <> []) values ->
+    last_opt keys = Some last ->
+    (forall k0, hd_error keys = Some k0 -> slice_lt k0 first = false) ->
+    slice_lt first last = true ->
+    (exists v, lk t (keybytes_to_hex last) = Some v) ->
+    db_get db r <> None ->
+    ~ missing_on H db t (keybytes_to_hex first) -> ~ missing_on H db t (keybytes_to_hex last) ->
+    honest_outcome (verify_range_proof H r first keys values (Some db)).
+Proof. exact range_complete_honest_partial. Qed.
+Print Assumptions C09_range_complete_honest_partial.
+
 (* OUTSIDE the guard (1): an empty key in the no-proof branch makes the Go code panic
    (StackTrie.Update -> writeHexKey: dst[2*len(key)-1]); full statement refuted:
    "verification never panics on any keys". Reproduced on the real code. *)
